@@ -23,7 +23,7 @@ RULE = ('cases = reply body from an alphabet around the accepted form (True, "Tr
         'repeated, whitespace, JSON true, empty, 1 MB, undecodable bytes) x HTTP status (2xx-5xx) x fault (none, '
         'ConnectTimeout, ReadTimeout, ConnectionError, SSLError, missing client cert / key / CA file) x content type '
         '(form / JSON) x http / https x the check at depth 0-5 under and/or/not/rule: x policy name x URL placeholders x '
-        'targets with nested values and top-level opaque objects. in the random stratum the content-type option may be changed on the living enforcer before a second request; B = the full body x status x content-type x scheme '
+        'targets with nested values, secret-looking keys (with the debug logging of the library on or off) and opaque objects (top level; below the top level only the target-left-unmodified clause is judged). in the random stratum the content-type option may be changed on the living enforcer before a second request; B = the full body x status x content-type x scheme '
         'product at depth 0; R = random combinations. Non-trivial = the body is not exactly True / "True" (must deny) or a '
         'fault is injected; distinct = distinct case.')
 ASSUMPTIONS = ['bodies with unbalanced or repeated surrounding quotes ("True, True", ""True"") are driven and recorded but '
@@ -36,7 +36,7 @@ LEVEL_TEXT = ('The body/status/content-type/scheme product and every listed faul
 LEVEL_NOTE = 'trusted: requests_mock as the transport; the request decoder in the harness'
 PLAN = {'quick': dict(shards=4, wall=70), 'thorough': dict(shards=16, wall=400)}
 MIN = {'evaluations': 800, 'requests_recorded': 500, 'deny_bodies': 300, 'allow_bodies': 50, 'faults_injected': 100,
-       'tls_file_faults': 20, 'content_type_changes_on_living_enforcer': 100}
+       'tls_file_faults': 20, 'content_type_changes_on_living_enforcer': 100, 'requests_under_debug_logging': 200, 'nested_opaque_targets': 50}
 ANCHORS = ['oslo_policy._external:HttpCheck.__call__', 'oslo_policy._external:HttpsCheck.__call__',
            'oslo_policy._external:HttpCheck._construct_payload', 'oslo_policy.policy:Enforcer.enforce']
 REQUIRED_ANCHORS = ['oslo_policy._external:HttpCheck.__call__', 'oslo_policy._external:HttpsCheck.__call__']
@@ -118,6 +118,13 @@ def build_rules(case):
 
 def make_target(case, objs):
     t = {'name': 'n1', 'id': 7, 'nested': {'k': [1, {'z': None}], 'é': 'ü'}, 'flag': True, 'none': None}
+    if case.get('secrets'):
+        # keys that look like secrets: they belong to the target and must reach the server unchanged
+        t.update({'password': 'pw-1', 'auth_token': 'tok', 'nested2': {'secret_key': 's3', 'list': [{'admin_pass': 'x'}]}})
+    if case.get('nested_opaque'):
+        o = object()
+        objs.append(o)
+        t['deep'] = {'inner': [o, {'obj': o}]}
     if case.get('opaque'):
         o = object()
         objs.append(o)
@@ -172,6 +179,10 @@ def check_case(ctx, case):
         expected_url = (case['scheme'] + '://srv' + case['path']) % target
         body = case['body']
         bclass = classify_body(body)
+        dbg = env.debug_logging() if case.get('debug') else None
+        if dbg:
+            dbg.__enter__()
+            ctx.count('requests_under_debug_logging')
         with requests_mock.Mocker() as m:
             kw = {}
             if fault in ('ConnectTimeout', 'ReadTimeout', 'ConnectionError', 'SSLError'):
@@ -188,8 +199,10 @@ def check_case(ctx, case):
             except Exception as e:
                 got, exc = None, e
             reqs = list(m.request_history)
+        if dbg:
+            dbg.__exit__(None, None, None)
         ctx.case(case, nontrivial=(bclass == 'deny' or fault != 'none'), stratum=case['s'])
-        if case.get('then_ctype') and fault == 'none':
+        if case.get('then_ctype') and fault == 'none' and not case.get('nested_opaque'):
             # the operator changes remote_content_type while the enforcer lives: the next request uses the new encoding
             conf.set_override('remote_content_type', case['then_ctype'], group='oslo_policy')
             with requests_mock.Mocker() as m2:
@@ -211,6 +224,12 @@ def check_case(ctx, case):
         # ---- caller's target untouched ---------------------------------------
         if snapshot(target) != snap0:
             ctx.violation('callers-target-modified', case, {'target_after': repr(target)[:300]})
+            return
+        if case.get('nested_opaque'):
+            # an opaque object below the top level cannot be encoded; what the call does then is outside the statement -
+            # except that the caller's target must be left alone (checked just above)
+            ctx.unconstrained('opaque-object-below-top-level')
+            ctx.count('nested_opaque_targets')
             return
         # ---- faults ---------------------------------------------------------
         if fault != 'none':
@@ -326,7 +345,8 @@ def run(ctx):
                     wraps=[rnd.choice(WRAPS) for _ in range(rnd.randint(0, 5))], name=rnd.choice(NAMES),
                     path=rnd.choice(['/%(name)s/check', '/check', '/v1/%(id)s?x=%(flag)s', '/%(name)s/%(name)s', ':8080/p']),
                     roles=[r for r in 'ab' if rnd.random() < 0.5], opaque=rnd.random() < 0.5, tls=rnd.random() < 0.4,
-                    then_ctype=rnd.choice([None, None] + CTYPES))
+                    then_ctype=rnd.choice([None, None] + CTYPES), secrets=rnd.random() < 0.4, debug=rnd.random() < 0.4,
+                    nested_opaque=rnd.random() < 0.1)
         check_case(ctx, case)
         if i % 150 == 0:
             ctx.sample(case, 'R')
